@@ -126,7 +126,7 @@ func conc(in, out, dir string, nc, maxpre, budget, nrand int) {
 			_ = cn.drain()
 			serf.VerifYield = s.Yield
 			serf.VerifYieldBlocked = s.YieldBlocked
-			done := map[int]bool{}    // thread -> its current call returned (set by the thread itself)
+			done := map[int]bool{}      // thread -> its current call returned (set by the thread itself)
 			curName := map[int]string{} // thread -> name of its current local call
 			for ti, ops := range p.Prog.Th {
 				ti, ops := ti, ops
